@@ -147,9 +147,11 @@ def run(tier, seed, replay=None):
     res.extra["free_form_usable_entries"] = usable_seen
     # (3) macro-generated enums
     crates = []
-    for ci in range(1 if tier == "quick" else 12):
+    for ci in range(2 if tier == "quick" else 12):
         sup = rng.sample(UNIVERSE, rng.randint(3, 7))
-        proj = {"cfg": {"default": sup[0], "locales": rng.sample(sup, len(sup)), "namespaces": None, "inherits": {}, "locales_dir": None},
+        # every second configuration does not repeat the default in `locales` (it is the no-match fallback all the same)
+        listed = rng.sample(sup, len(sup)) if ci % 2 == 0 else rng.sample(sup[1:], len(sup) - 1)
+        proj = {"cfg": {"default": sup[0], "locales": listed, "namespaces": None, "inherits": {}, "locales_dir": None},
                 "data": {(None, l): [["k", {"k": "lit", "ty": "str", "v": "v"}]] for l in sup}}
         c = e2e.ProbeCrate("c12_%d" % ci, proj)
         lists = [[random_request(rng) for _ in range(rng.randint(1, 4))] for _ in range(300)]
